@@ -8,6 +8,8 @@ observed stop reaches the answer; R5 nothing reachable from isready/stop
 blocks, and the output lock is released on every path.
 Not decided: the wall-clock bound between two polls (one node's work)."""
 from facts import AnalysisBroken
+from rules.effects import canon
+from rules.common import guard_facts
 from prog import walk, kids, short, access_kind
 from rules.common import (thread_entries, uci_handlers, sccs, written_value, counting_for,
                           const_of, strip_casts, strip_conv, is_atomic_type, norm_cond)
@@ -339,9 +341,111 @@ def check(ctx):
                        'no call into the search recursion while the output lock is held', site=f.loc(lk))
     ctx.floor('C06.R5.lock-released', n_locks, 15, 'IO_LOCK sites')
 
+    # ---- R6 thread lifetime: the objects the search thread works on outlive it ---------------------------------
+    r6_lifetime(ctx, p, entries, handlers, loop)
+
     ctx.assume('UCI protocol: only stop, isready and quit arrive while a search is running (quantifier of C06)')
     ctx.assume('field-based (object-insensitive) sharing: two accesses to the same field of any object are treated as potentially the same location')
     ctx.note('not decided: wall-clock bound between two polls (one node: move generation + evaluation), data-dependent')
+
+
+def _joins(p, f, member, seen=None):
+    """does f (or a callee) contain <member>.join() such that, when the handle is joinable, the join is executed on
+    every path (accepted idiom: `if (m.joinable()) m.join();` not nested in another condition), and is a stop
+    requested before it?  returns (joins, stop_before)"""
+    seen = seen or set()
+    if f.id in seen:
+        return False, False
+    seen.add(f.id)
+    for n, cfid, nm in f.calls():
+        if nm == 'std::thread::join' and member in canon(f, kids(kids(n)[0])[0] if kids(kids(n)[0]) else n, inline=False):
+            gf = [(canon(f, c, inline=False).replace(' ', ''), t) for c, t in guard_facts(f, n)]
+            only_joinable = all(('joinable()' in g and t) for g, t in gf)
+            stops = [m for m, cf2, nm2 in f.calls() if short(nm2) == 'stop' and 'Search' in nm2]
+            stop_before = any(f.cfg.node_dominates(m, n) or _guarded_only_by_nonnull(f, m, n) for m in stops)
+            return only_joinable, stop_before
+    for n, cfid, nm in f.calls():
+        g = p.funcs.get(cfid)
+        if g is not None and g.body is not None and g.file.startswith(p.root) and not guard_facts(f, n):
+            j, sb = _joins(p, g, member, seen)
+            if j:
+                return j, sb
+    return False, False
+
+
+def _guarded_only_by_nonnull(f, stop_call, join_call):
+    """`if (search) search->stop();` placed before the join statement"""
+    gf = guard_facts(f, stop_call)
+    if len(gf) != 1 or not gf[0][1]:
+        return False
+    cond = gf[0][0]
+    return f.cfg.node_dominates(cond, join_call)
+
+
+def r6_lifetime(ctx, p, entries, handlers, loop):
+    n_t = 0
+    for creator, node, entry in entries:
+        n_t += 1
+        # which object receives the thread?
+        par = creator.parent(node)
+        while par is not None and par['k'] in ('MaterializeTemporaryExpr', 'CXXBindTemporaryExpr', 'ExprWithCleanups', 'CXXFunctionalCastExpr',
+                                              'ImplicitCastExpr', 'CXXConstructExpr'):
+            par = creator.parent(par)
+        target = None
+        if par is not None and par['k'] == 'VarDecl':
+            target = ('local', par['name'], par)
+        elif par is not None and par['k'] == 'CXXOperatorCallExpr' and par.get('op') == '=':
+            l = strip_casts(kids(par)[1])
+            if l.get('ref', {}).get('k') == 'Field':
+                target = ('member', l['ref']['n'], par)
+            elif l.get('ref', {}).get('k') == 'Local':
+                target = ('local', l['ref']['n'], par)
+        captures_this = any(x['k'] == 'CXXThisExpr' for a in kids(node) for x in walk(a))
+        det = [n for f in p.repo_funcs('engine/') for n, cfid, nm in f.calls() if nm == 'std::thread::detach']
+        ctx.ob('C06.R6.not-detached', '%s@%d' % (short(creator.name), node.get('l', 0)), not det,
+               'no thread working on engine objects is detached (a detached thread can outlive the objects it was given)',
+               site=creator.loc(node))
+        if target is None:
+            raise AnalysisBroken('C06.R6: cannot tell where the thread created at %s is kept' % creator.loc(node))
+        if target[0] == 'local':
+            # a local handle must be joined before the function returns
+            joins = [n for n, cfid, nm in creator.calls() if nm == 'std::thread::join' and target[1] in canon(creator, n, inline=False)]
+            ok = bool(joins) and all(creator.cfg.node_postdominates(j, target[2]) for j in joins[:1])
+            ctx.ob('C06.R6.joined', '%s:%s' % (short(creator.name), target[1]), ok,
+                   'the local thread handle is joined on every path before it goes out of scope', site=creator.loc(node))
+            continue
+        member = short(target[1])
+        owner = target[1].rsplit('::', 1)[0]
+        # (a) before the handle is overwritten the old thread has been joined (move-assigning onto a joinable thread terminates)
+        pre = [n for n, cfid, nm in creator.calls() if cfid in p.funcs and creator.cfg.node_dominates(n, target[2]) and
+               _joins(p, p.funcs[cfid], member)[0]]
+        pre_stop = any(_joins(p, p.funcs[cfid], member)[1] for n, cfid, nm in creator.calls()
+                       if cfid in p.funcs and creator.cfg.node_dominates(n, target[2]) and _joins(p, p.funcs[cfid], member)[0])
+        ctx.ob('C06.R6.join-before-restart', '%s:%s' % (short(creator.name), member), bool(pre) and pre_stop,
+               'before a new search thread is stored in %s the previous one is told to stop and joined' % member, site=creator.loc(target[2]))
+        # the objects the thread reads must not be replaced between the join and the start by anything but this handler: the
+        # Search object is created after the join
+        mk = [n for n, cfid, nm in creator.calls() if 'make_shared' in nm and 'Search' in (n.get('t') or '') + cfid]
+        ctx.ob('C06.R6.fresh-search-after-join', short(creator.name), bool(mk) and bool(pre) and
+               all(creator.cfg.node_dominates(pre[0], m) and creator.cfg.node_dominates(m, target[2]) for m in mk),
+               'the Search object handed to the new thread is created after the old thread is gone and before the new one starts',
+               site=creator.loc(mk[0]) if mk else creator.loc())
+        # (b) the command loop's exit and the destructor stop and join
+        exits = []
+        lj = [n for n, cfid, nm in loop.calls() if cfid in p.funcs and _joins(p, p.funcs[cfid], member)[0]]
+        wl = [n for n in loop.all_nodes() if n['k'] == 'WhileStmt']
+        ok_loop = bool(lj) and bool(wl) and any(not loop.inside(j, wl[0]) and loop.cfg.node_postdominates(j, kids(wl[0])[0]) and
+                                                _joins(p, p.funcs[j['callee']['fid']], member)[1] for j in lj)
+        dtor = [f for f in p.funcs.values() if f.cls == owner and short(f.name).startswith('~') and f.body is not None]
+        ok_d = len(dtor) == 1 and any(cfid in p.funcs and all(_joins(p, p.funcs[cfid], member)) for n, cfid, nm in dtor[0].calls())
+        ctx.ob('C06.R6.join-before-destruction', owner, ok_d or ok_loop,
+               'before the object that owns the thread is destroyed the search is told to stop and its thread is joined: in the destructor (%s) '
+               'or where the command loop ends (%s)' % ('yes' if ok_d else 'no', 'yes' if ok_loop else 'no'),
+               site=dtor[0].loc() if dtor else loop.loc())
+        # (c) the entry function receives `this` of the owner: everything it reads lives in that object or is owned through it
+        ctx.ob('C06.R6.argument', short(entry.name), captures_this,
+               'the thread works on the owner object itself (passed as `this`)', site=creator.loc(node))
+    ctx.floor('C06.R6.threads', n_t, 1, 'thread constructions')
 
 
 def _loop_key(f, c, header):
